@@ -49,14 +49,16 @@ DUMPS_KW = _capture_dumps_kwargs()
 SHAPES = ["flat", "list", "nested", "empty", "lod"]
 KEYPATS = ["q", "b", "e", "o", "u", "qq", "qb", "qo", "bq", "bb", "bo", "oq", "ob", "oo", "eq", "qe", "oe", "uo", "qu",
            "qoq", "oqo", "obq"]
-CASES = ["%s:%s:%d" % (sh, kp, sp) for sh in SHAPES for kp in KEYPATS for sp in (34, 29)]
+# 'W' = a concrete 24-character run: with it the key token ends around the alignment column (before, at, after it)
+WIDE = ["flat:Wqo:34", "flat:Wq:34", "flat:Wbo:29", "nested:Wqo:34", "nested:Wo:29", "lod:Wqq:34", "list:WWo:34", "empty:Wob:29"]
+CASES = ["%s:%s:%d" % (sh, kp, sp) for sh in SHAPES for kp in KEYPATS for sp in (34, 29)] + WIDE
 QUICK = ["flat:u:34", "list:uo:29", "flat:qo:34", "flat:b:34", "flat:oq:29", "nested:qo:34", "list:bq:34", "lod:ob:29", "flat:e:34", "empty:qq:29",
-         "flat:oqo:34", "list:oo:29"]
+         "flat:oqo:34", "list:oo:29", "flat:Wqo:34", "nested:Wo:29", "lod:Wqq:34"]
 HARNESSES = [{"fn": "h_lines", "cases": CASES, "quick_cases": QUICK, "timeout": {"quick": 90, "thorough": 300}},
              {"fn": "h_framing", "cases": ["fwd", "rev"], "timeout": {"quick": 90, "thorough": 300}},
              {"fn": "h_written", "cases": ["fresh", "existing", "twice"], "timeout": {"quick": 90, "thorough": 300}}]
 FUNCTIONS += ["peltool.parseAndWriteOutput (the file written by -j)", "peltool.extractAllPELsData (JSON array framing)", "json.dumps keyword arguments at peltool.py call sites"]
-BOUNDS = {"keys": "length 1..3 with a concrete class pattern per case (quote / backslash / non-ASCII e-acute / one of "
+BOUNDS = {"keys": "length 1..3 (or 24 / 48 concrete characters + 1..2 symbolic ones, so that the key ends before, at or after the alignment column) with a concrete class pattern per case (quote / backslash / non-ASCII e-acute / one of "
                   "'{:, a[]}' symbolic)", "string values": "length 0..2, every character symbolic over the full alphabet "
                   "{\" \\ e-acute { : , space a [ ] }}", "shapes": "{k: v}, {k: [s, s]}, {k: {k2: v}}, {k: []}, [{k: v}]",
           "desiredSpace": "34 and 29 (the two values the tool uses)"}
@@ -107,6 +109,9 @@ def h_lines() -> bool:
     full = '"\\\u2028' + OTHER
     kcps, kparts = [], []
     for i, cl in enumerate(kp):
+        if cl == "W":
+            kcps += [ord("w")] * 24
+            continue
         cps, s = sym_chars("k%d" % i, 1, CLASSES[cl])
         kcps += cps
         kparts.append(s)
